@@ -97,10 +97,18 @@ func builtKinds(call *ssa.Call) ([]string, bool) {
 		return nil, false
 	}
 	sig := f.Signature
-	if !sig.Variadic() || len(call.Call.Args) == 0 {
+	if len(call.Call.Args) == 0 {
 		return nil, false
 	}
 	last := call.Call.Args[len(call.Call.Args)-1]
+	if !sig.Variadic() {
+		// single-kind form: f(..., kind string)
+		k, ok := constString(last)
+		if !ok || !kindNames[k] || !isStringType(last.Type()) {
+			return nil, false
+		}
+		return []string{k}, true
+	}
 	ks, ok := stringConsts(last)
 	if !ok || len(ks) == 0 {
 		return nil, false
